@@ -547,7 +547,20 @@ def c03_streams(tier, rng):
     # XBW answers rank queries although its IDs are co-lexicographic (recorded finding K6)
     k6 = kind_cases(tier, rng, ["XBW"], lambda k, pv, S, r: [["lrk", 1], ["xrk", 1], ["lrk", len(S)], ["xrk", len(S)], ["xrk", (len(S) + 1) // 2]],
                     battery=small_battery(tier, rng, 6), name="x")
-    return [StreamSet("order", "asan", main), StreamSet("xbwrank", "asan", k6),
+    # codewords longer than the 16-bit chunk of the decoding table (rare bytes of a large skewed dictionary),
+    # in bucket headers and inside buckets
+    LS, rare, probe = longcw_dict(tier, rng)
+    idx = {x: i + 1 for i, x in enumerate(LS)}
+    lc = []
+    for kind in ("HTFC", "HHTFC", "RPHTFC"):
+        for b in (2, 3, 16):
+            ops = []
+            for x in rare + probe[:8]:
+                i = idx[x]
+                ops += [["ext", i], ["loc", hx(x)], ["xrk", i]] + ([["ext", i - 1], ["ext", i + 1]] if 1 < i < len(LS) else [])
+            for ph, pre in (("b", []), ("l", [["reload", "own", 1]])):
+                lc.append(("c3l_%s_%d_%s" % (kind, b, ph), "dict", kind, {"b": b}, LS, pre + ops))
+    return [StreamSet("order", "asan", main), StreamSet("xbwrank", "asan", k6), StreamSet("longcodes", "asan", lc, timeout=120),
             StreamSet("rpdac-layer", "asan", rpdac_cases(tier, rng, 30 if tier == "thorough" else 10), phase2=rpdac_phase2, timeout=60)]
 
 
@@ -595,7 +608,8 @@ PROPS["C15"] = PropSpec(simple_dict_prop(c15_ops, ALL_KINDS, "meta", phases=("bu
                         _RULE % "numElements and maxLength on built and reloaded objects",
                         _PART, "counter folds of the constructor models", _ASSUME)
 PROPS["C16"] = PropSpec(simple_dict_prop(c16_ops, ALL_KINDS, "failsafe"),
-                        _RULE % "every unsupported operation of the kind with well-formed arguments, then ordinary queries on the same object; four foreign loaders per image",
+                        _RULE % "every unsupported operation of the kind with well-formed arguments, then ordinary queries on the same object; four foreign loaders per image; "
+                                "the image with its type tag overwritten by eight values that name no kind (0, values whose low byte or low 16 bits are a real tag, 2^32-1) through the generic loader",
                         _PART, "dispatch / loader-guard / stub theorems over generated fragments", _ASSUME)
 
 
@@ -1518,14 +1532,16 @@ PROPS["C18"] = PropSpec(c18_streams,
 PROPS["C19"] = PropSpec(c19_streams,
                         "bit vectors: all vectors of length <= 6 (thorough <= 10), sampled up to 12, lengths around multiples of 32 and of the sampling rate, all-zero, all-one, single one at either end, densities 1..99 %; "
                         "BitSequenceRG factor {1,2,3,4,20,32}, RRR sample {4,16,32,64,128}, SDArray, DArray; access/rank0/rank1 at every position, select0/select1 for every rank, before and after save/load; "
-                        "wavelet trees (pointer and pointerless, Huffman shape, identity mapper) over alphabets {1,2,3,17,256}",
+                        "wavelet trees (pointer and pointerless, Huffman shape, identity mapper) over alphabets {1,2,3,17,256}; long vectors of 285 000 .. 1 048 576 bits (1 % ones, mixed sparse/dense/sparse, "
+                        "long gaps, aligned empty super-blocks) for RG, RRR, DArray, SDArray: every select (sampled above 60 000) and a grid of rank/access checked against the plain definitions by the harness, built and reloaded",
                         ["BitSequenceRG has theorems (rank1, select1, select0, access, save/load bytes); RRR, SDArray, DArray and the wavelet trees are compared with the plain definitions"],
                         "rank1/select1/select0/access of BitSequenceRG are exact (theorems) and its image reloads to itself; the driver answers r1, s1, s0 and the image through the exact models "
                         "and everything else from the plain definitions",
                         [])
 PROPS["C20"] = PropSpec(c20_streams,
                         "integer sequences with 0 terminators: all sequences over {1,2,0} up to length 6 (thorough 8), runs of one symbol, no repeated pair, Fibonacci and Thue-Morse words (deep rules), "
-                        "the sequences the dictionary constructors build (incl. VByte bytes and 255 end markers); the exported grammar and compacted sequence are re-validated by the Lean driver "
+                        "the sequences the dictionary constructors build (incl. VByte bytes and 255 end markers), 20-60 K-symbol texts (thousands of rules) and a 640 K-symbol text of near-duplicate random strings "
+                        "(> 200 000 rules; the compressor's pair table is enlarged); the exported grammar and compacted sequence are re-validated by the Lean driver "
                         "(rules well-founded, zero-free, expansion = input, identifier width); after save/load; plus every answer of the five kinds that use Re-Pair",
                         ["pair selection (heap/hash/records of IRePair) is not modelled: the theorems hold for every choice, the actual choice is validated per run"],
                         "replacement-system theorems (lossless for every run, zero-free and well-founded rules, bits suffice); the implementation's grammars are validated on every run",
